@@ -137,7 +137,7 @@ type App struct {
 	// genesis (restart of a chain from the exported state of another instance)
 	GenOverride map[string]json.RawMessage
 	GenTime     int64 // tick of the genesis time
-	ModAddr map[string]sdk.Address
+	ModAddr     map[string]sdk.Address
 }
 
 // ---------------------------------------------------------------------------------------------
